@@ -150,6 +150,9 @@ def execute(scn):
         stats['mode_' + scn.get('mode', 'written')] = 1
         if hint is not None and not ws.exists('va/evolutions/h1.py'):
             stats['hint_wrote_nothing'] = 1
+        elif hint is not None:
+            # judge a hinted run by the mutations the hint really contains
+            tags = common.hint_tags(ws.read_file('va/evolutions/h1.py'))
         if getattr(r, 'placeholder', False):
             stats['hint_placeholder'] = 1
             return res
